@@ -343,9 +343,14 @@ func (e *Evaluator) evalForStmt(node *ast.ForStmt, env *object.Env) object.Objec
 			return post
 		}
 
-		varName := node.Init.(*ast.AssignStmt).Name.Value
+		// only an assignment in the init clause declares a loop variable
+		init, isAssign := node.Init.(*ast.AssignStmt)
 
-		err := newEnv.Set(varName, post)
+		if !isAssign {
+			continue
+		}
+
+		err := newEnv.Set(init.Name.Value, post)
 		if err != nil {
 			return e.newError(node, "%s", err.Error())
 		}
